@@ -9,7 +9,9 @@
      ST <n> <status> | HB <n> | DR <n> | LD <n> <load> | RM <n>
      RB <order>                   order = n,n,... registry iteration order ("-" = empty)
      RT <shard> <order>
-     RTI <shard> <order> <spec>   route_write with interference at the pause point between assignment and
+     RTI <shard> <order|order|..> <spec>   (iteration order before the call, then at every pause point: another
+                                  task's register_node can rehash the registry's HashMap)
+                                  route_write with interference at the pause point between assignment and
                                   lookup; spec = attempts separated by '/', mutations by '+', fields by '.':
                                   ST.<n>.<status> | LD.<n>.<load> | RM.<n> | _ (nothing); used cyclically
      OB
@@ -102,7 +104,9 @@ let run_line (line : string) : string =
            | ["RB"] -> apply (ORebalance [])
            | ["RT"; s; o] -> apply (ORoute (n_of_string s, order_of o))
            | ["RT"; s] -> apply (ORoute (n_of_string s, []))
-           | ["RTI"; s; o; sp] -> apply (ORouteI (n_of_string s, order_of o, spec_of sp))
+           | ["RTI"; s; o; sp] ->
+               (* o = order before the call | order at the 1st pause | order at the 2nd pause ... *)
+               apply (ORouteI (n_of_string s, List.map order_of (split_on '|' o), spec_of sp))
            | ["OB"] -> emit (show_reg !st)
            | _ -> failwith ("bad op: " ^ tok)) (split_on ';' line)
      with Stop -> ());
